@@ -9,6 +9,7 @@ import (
 	"fmt"
 	"io"
 	"net"
+	"os"
 	"sync"
 	"time"
 )
@@ -35,6 +36,8 @@ type end struct {
 	peerWr   bool // the peer closed its write side (or closed completely): EOF after the buffer drains
 	reset    bool // the peer reset the connection: pending and future reads fail with ErrReset
 	notify   chan struct{}
+	rdl, wdl time.Time   // read / write deadlines of the owner of this end (zero: none)
+	rdTimer  *time.Timer // wakes a blocked Read when the read deadline passes
 	ReadCnt  int
 	WriteCnt int
 	RdBytes  int
@@ -85,6 +88,10 @@ func (c *Conn) Read(p []byte) (int, error) {
 		case c.self.reset:
 			c.self.mu.Unlock()
 			return 0, ErrReset
+		case !c.self.rdl.IsZero() && !time.Now().Before(c.self.rdl):
+			// like the runtime's network poller: a read with an expired deadline fails even if data is available
+			c.self.mu.Unlock()
+			return 0, os.ErrDeadlineExceeded
 		case len(c.self.buf) > 0:
 			n := len(c.self.buf)
 			if n > len(p) {
@@ -120,10 +127,14 @@ func (c *Conn) Write(p []byte) (int, error) {
 	}
 	c.self.mu.Lock()
 	closed := c.self.closed
+	late := !c.self.wdl.IsZero() && !time.Now().Before(c.self.wdl)
 	c.self.WriteCnt++
 	c.self.mu.Unlock()
 	if closed {
 		return 0, net.ErrClosed
+	}
+	if late {
+		return 0, os.ErrDeadlineExceeded
 	}
 	c.peer.mu.Lock()
 	peerClosed := c.peer.closed
@@ -212,11 +223,43 @@ func (c *Conn) Stats() (reads, writes, rdBytes, wrBytes int) {
 	return c.self.ReadCnt, c.self.WriteCnt, c.self.RdBytes, c.self.WrBytes
 }
 
-func (c *Conn) LocalAddr() net.Addr                { return addr(c.Name) }
-func (c *Conn) RemoteAddr() net.Addr               { return addr(c.Name + ".peer") }
-func (c *Conn) SetDeadline(t time.Time) error      { return nil }
-func (c *Conn) SetReadDeadline(t time.Time) error  { return nil }
-func (c *Conn) SetWriteDeadline(t time.Time) error { return nil }
+func (c *Conn) LocalAddr() net.Addr  { return addr(c.Name) }
+func (c *Conn) RemoteAddr() net.Addr { return addr(c.Name + ".peer") }
+
+// Deadlines behave like those of a socket: a deadline in the past fails pending and future reads (writes never block here,
+// so a write deadline only matters once it has passed); the zero time removes the deadline.
+func (c *Conn) SetDeadline(t time.Time) error {
+	_ = c.SetReadDeadline(t)
+	return c.SetWriteDeadline(t)
+}
+func (c *Conn) SetReadDeadline(t time.Time) error {
+	e := c.self
+	e.mu.Lock()
+	if e.closed {
+		e.mu.Unlock()
+		return net.ErrClosed
+	}
+	e.rdl = t
+	if e.rdTimer != nil {
+		e.rdTimer.Stop()
+		e.rdTimer = nil
+	}
+	if d := time.Until(t); !t.IsZero() && d > 0 {
+		e.rdTimer = time.AfterFunc(d, e.signal)
+	}
+	e.mu.Unlock()
+	e.signal()
+	return nil
+}
+func (c *Conn) SetWriteDeadline(t time.Time) error {
+	c.self.mu.Lock()
+	defer c.self.mu.Unlock()
+	if c.self.closed {
+		return net.ErrClosed
+	}
+	c.self.wdl = t
+	return nil
+}
 
 // Listener hands out the accepting ends of pipes created by Dial.
 type Listener struct {
